@@ -18,6 +18,7 @@ M = [
     ("C01", "no-evenodd-conversion", "svg.py", "            if shape.fill_rule == \"evenodd\":\n                path = shape.as_path().remove_overlaps(inplace=True)", "            if False:\n                path = shape.as_path().remove_overlaps(inplace=True)"),
     ("C01", "group-attrs-not-cleared", "svg.py", "        group_el.attrib.clear()\n        group_el.attrib[\"opacity\"] = ntos(opacity)", "        group_el.attrib[\"opacity\"] = ntos(opacity)"),
     ("C01", "desc-not-removed", "svg.py", "for tag in (\"title\", \"desc\", \"metadata\", \"comment\"):", "for tag in (\"title\", \"metadata\", \"comment\"):"),
+    ("C14", "desc-not-removed-c14", "svg.py", "for tag in (\"title\", \"desc\", \"metadata\", \"comment\"):", "for tag in (\"title\", \"metadata\", \"comment\"):"),
     ("C01", "dashoffset-not-reset", "svg.py", "_reset_attrs(path, lambda field: field.name.startswith(\"stroke\"))", "_reset_attrs(path, lambda field: field.name.startswith(\"stroke\") and field.name != \"stroke_dashoffset\")"),
     ("C01", "cli-option-swap", "picosvg.py", "allow_text=FLAGS.allow_text, drop_unsupported=FLAGS.drop_unsupported", "allow_text=FLAGS.allow_text, drop_unsupported=FLAGS.allow_text"),
     ("C02", "compose-order", "svg.py", "return Affine2D.compose_ltr((Affine2D.fromstring(raw), current_transform))", "return Affine2D.compose_ltr((current_transform, Affine2D.fromstring(raw)))"),
@@ -60,6 +61,9 @@ M = [
     ("C09", "next-pos-first-index", "svg_types.py", "        new_x += cmd_args[x_coord_idxs[-1]]", "        new_x += cmd_args[x_coord_idxs[0]]"),
     ("C09", "V-uses-y", "svg_types.py", "        args = (curr_pos.x, args[0])", "        args = (curr_pos.y, args[0])"),
     ("C09", "snap-tolerance", "geometric_types.py", "DEFAULT_ALMOST_EQUAL_TOLERANCE = 1e-9", "DEFAULT_ALMOST_EQUAL_TOLERANCE = 1e-3"),
+    ("C20", "snap-tolerance-c20", "geometric_types.py", "DEFAULT_ALMOST_EQUAL_TOLERANCE = 1e-9", "DEFAULT_ALMOST_EQUAL_TOLERANCE = 1e-3"),
+    ("C11", "snap-tolerance-c11", "geometric_types.py", "DEFAULT_ALMOST_EQUAL_TOLERANCE = 1e-9", "DEFAULT_ALMOST_EQUAL_TOLERANCE = 1e-3"),
+    ("C04", "swap-not-reversed-c04", "svg.py", "            for new_el in reversed(new_els):\n                old_el.addnext(new_el)", "            for new_el in new_els:\n                old_el.addnext(new_el)"),
     ("C09", "ellipse-second-arc-small", "svg_types.py", "        path.A(rx, ry, cx + rx, cy, large_arc=1)", "        path.A(rx, ry, cx + rx, cy, large_arc=0)"),
     ("C09", "move-shifts-relative", "svg_types.py", "            if cmd.islower():\n                return ((cmd, args),)\n            x_coord_idxs, y_coord_idxs = cmd_coords(cmd)", "            x_coord_idxs, y_coord_idxs = cmd_coords(cmd)"),
     ("C10", "no-leading-dot", "svg_path_iter.py", "    r\"|\"\n    r\"(?:\\.[0-9]+)\"  # float with leading dot (e.g. '.42')\n", ""),
@@ -112,6 +116,12 @@ def main():
     want = set(sys.argv[1:])
     os.makedirs(os.path.join(V, "breakit"), exist_ok=True)
     rows = []
+    prev = {}
+    if os.path.exists(os.path.join(V, "breakit", "RESULTS.md")):
+        for l in open(os.path.join(V, "breakit", "RESULTS.md")):
+            m = re.match(r"\| (C\d+) \| ([\w-]+) \| (.*?) \| (.*?) \| (.*) \|$", l)
+            if m:
+                prev[(m.group(1), m.group(2))] = m.groups()
     for pid, name, fn, old, new in M:
         if want and pid not in want and name not in want:
             continue
@@ -126,9 +136,11 @@ def main():
                 print(pid, name, "site not found")
                 continue
             open(path, "w").write(src.replace(old, new, 1))
-            t = sh(f"cd {wt} && PYTHONPATH={wt}/src /venv/bin/python -m pytest -q -p no:cacheprovider -x -q 2>&1 | tail -1", timeout=600).stdout.strip()
-            t2 = sh(f"cd {wt} && PYTHONPATH={wt}/src /venv/bin/python -m pytest -q -p no:cacheprovider 2>&1 | tail -1", timeout=600).stdout.strip()
-            suite = "unchanged" if "5 failed, 356 passed" in t2 else re.sub(r" in [\d.]+s", "", t2)
+            if os.environ.get("BREAKIT_NOSUITE"):
+                suite = prev.get((pid, name), ("", "", "?"))[2]
+            else:
+                t2 = sh(f"cd {wt} && PYTHONPATH={wt}/src /venv/bin/python -m pytest -q -p no:cacheprovider 2>&1 | tail -1", timeout=600).stdout.strip()
+                suite = "unchanged" if "5 failed, 356 passed" in t2 else re.sub(r" in [\d.]+s", "", t2)
             r = sh(f"cd {V} && VERIF_REPO={wt} ./check {pid} --tier quick", timeout=1800)
             sig = ""
             for line in r.stdout.splitlines():
